@@ -1,6 +1,6 @@
 (* C08 obligations.  Statements only; proofs are in SacnTrack/SacnProofs/SacnThms/ArtProofs. *)
 From OlaBase Require Import Bytes.
-From C08 Require Import Gen Model Spec SacnThms TextSpec TextCheck ShadowThm ArtDistinct ArtStep NodeProofs WireProofs ExtProofs Final.
+From C08 Require Import Gen Model Spec SacnThms TextSpec TextCheck ShadowThm ArtDistinct ArtStep NodeProofs WireProofs ExtProofs MultiProofs Final.
 Local Open Scope N_scope.
 
 (* the property's literal numbers are the constants of the checked-out tree *)
@@ -361,6 +361,38 @@ Theorem c08_sacn_window :
 Proof. exact c08_sacn_window_l. Qed.
 Print Assumptions c08_sacn_window.
 
+(* sACN, one inflator with several universes and receiver API calls in mid-history (SetHandler again,
+   RemoveHandler): the state of every universe after ANY history of packets (for any universes, from
+   any CIDs - the same CID may send on several universes) and API calls is the result of that universe's
+   OWN run: only packets for it and registrations of it matter (a terminate on one universe never
+   touches another).  Between registrations that run is the single-universe receiver of all the
+   theorems above.  SetHandler on a registered universe keeps its tracked sources and active priority
+   (with the same output objects it changes nothing at all); RemoveHandler affects that universe only. *)
+Theorem c08_sacn_universes_independent :
+  (forall ip h S u, ilook (irun ip S h) u = urun ip u (ilook S u) h) /\
+  (forall ip u h st,
+     urun ip u (Some st) (map (fun np : N * pkt => (fst np, IPkt (snd np))) h) =
+     Some (run (mkCfg ip u) st h)) /\
+  (forall ip now S u st fresh,
+     ilook S u = Some st ->
+     exists st', ilook (fst (inflator_op ip now S (IReg u fresh))) u = Some st' /\
+                 u_srcs st' = u_srcs st /\ u_active st' = u_active st /\ (fresh = false -> st' = st)) /\
+  (forall ip now S u u', u' <> u ->
+     ilook (fst (inflator_op ip now S (IUnreg u))) u' = ilook S u' /\
+     ilook (fst (inflator_op ip now S (IUnreg u))) u = None).
+Proof. exact c08_sacn_universes_independent_l. Qed.
+Print Assumptions c08_sacn_universes_independent.
+
+(* Art-Net, transmit failures: in the model reception and merging have no dependency on whether the
+   node's own packets (ArtPollReply on entering merge mode, ...) could be sent - the operation that makes
+   the socket's SendTo fail or succeed is the identity on the node, so c08_artnet_node covers histories
+   with such failures; the correspondence drives the real node with a socket whose sends fail on demand. *)
+Theorem c08_artnet_send_independent :
+  forall now nd b,
+    node_op now nd (NSendFail b) = (nd, map (fun _ => false) (n_ports nd)).
+Proof. exact c08_artnet_send_independent_l. Qed.
+Print Assumptions c08_artnet_send_independent.
+
 (* hypotheses are satisfiable / the theorems are not vacuous *)
 Definition ex_pkt (cid prio seq : N) (term : bool) (slots : list N) : pkt :=
   mkPkt 2 cid prio seq 1 false term false 161
@@ -491,3 +523,18 @@ Example ex_datagram_rev2_and_ratified :
                                    (400, mkDG true 7 w1)] in
   u_buf st = [5; 9] /\ length (u_srcs st) = 2%nat.
 Proof. vm_compute. split; reflexivity. Qed.
+
+(* the same CID on two universes: terminating universe 1 leaves its slot on universe 2 alone; SetHandler
+   again keeps the sources so a priority-50 newcomer is still refused *)
+Example ex_two_universes :
+  let P := fun u cid prio seq term slots =>
+     mkPkt 2 cid prio seq u false term false 161 ([0; 0; 0; 1; 0; 1 + len slots] ++ 0 :: slots) in
+  let h := [(0, IReg 1 false); (0, IReg 2 false);
+            (100, IPkt (P 1 1 100 0 false [9])); (110, IPkt (P 2 1 100 0 false [7]));
+            (120, IPkt (P 2 2 100 0 false [1])); (130, IPkt (P 1 1 100 1 true [0]));
+            (140, IReg 2 false); (150, IPkt (P 2 3 50 0 false [255]))] in
+  let S := irun true [] h in
+  option_map u_buf (ilook S 1) = Some [] /\
+  option_map (fun st => map s_cid (u_srcs st)) (ilook S 2) = Some [1; 2] /\
+  option_map u_buf (ilook S 2) = Some [7].
+Proof. vm_compute. repeat split; reflexivity. Qed.
